@@ -32,6 +32,10 @@ def instantiations(tier, seed):
             if tier == "quick" and len(sh) == 2 and sh[0] * sh[1] > 4 and me not in ("shadow", "prio"):
                 continue
             out.append({"shape": list(sh), "axis": ax, "method": me})
+    # three priority rows with a concrete all-zero (or fully overridden) middle row: surviving rows are not adjacent (4 symbolic entries)
+    for me in ("shadow", "prio", "rank"):
+        out.append({"shape": [3, 2], "axis": 0, "method": me, "fixed": {"1,0": 0, "1,1": 0}})
+        out.append({"shape": [3, 3], "axis": 0, "method": me, "fixed": {"1,0": 0, "1,1": 0, "1,2": 0, "0,2": 0, "2,0": 0, "2,1": 7}})
     if tier == "quick":
         out.append({"shape": [2, 2, 2], "axis": 0, "method": "first"})
         out.append({"shape": [2, 2, 2], "axis": 0, "method": "max"})
@@ -71,8 +75,10 @@ def run_inst(spec, run):
         def fn(ctx):
             arr = np.empty(shape, dtype=object)
             ent = {}
+            fixed = spec.get("fixed") or {}
             for idx in np.ndindex(*shape):
-                s = ctx.int("p" + "_".join(map(str, idx)), -50, 50)
+                key = ",".join(map(str, idx))
+                s = S.K(fixed[key]) if key in fixed else ctx.int("p" + "_".join(map(str, idx)), -50, 50)
                 arr[idx] = s
                 ent[idx] = s
             X = ns.pnd.integer_ndarray(arr) if len(shape) >= 2 else ns.pnd.integer_ndarray(arr, variables=[ns.puan.variable(i) for i in range(shape[0])], index=[ns.puan.variable(i) for i in range(shape[0])])
